@@ -225,6 +225,11 @@ func GenRuleSet(t *rapid.T, o RuleOpts) *Generated {
 						pat = &Pat{Kind: "group", Cap: true, Kids: []*Pat{pat}}
 					}
 					pattern = renderSafe(pat)
+					if !o.NoNullable && r.Action == "" && rapid.IntRange(0, 39).Draw(t, "emptypat") == 0 {
+						// a rule without any pattern (and without an action): legal, matches the empty string where it is reached
+						pat = &Pat{Kind: "lit", Text: ""}
+						pattern = ""
+					}
 					info = PatInfo{Pat: pat, BrefN: -1}
 					if !o.NoBackrefs && si > 0 && rapid.IntRange(0, 3).Draw(t, "br") == 0 {
 						// a back-reference: single backslash + digit, not followed by a digit
